@@ -1,6 +1,8 @@
 (* C11 - Post-quantum protection is applied exactly where the policy asks for it. *)
 From Coq Require Import List NArith Bool Arith Lia.
 From CC Require Import Policy Structure Keys KeysMachine RightsInj.
+From CC Require Import DisabledProofs KInv1 KInv2 KInv3 KInv4 KInv4b KInv5 KInv6 KInv7 KInv8 KInv9 KInv10.
+From CC Require KeysTheorems.
 Import ListNotations.
 
 (* A right of the structure is hybridized iff at least one of its attributes was declared hybridized, and can be
@@ -43,3 +45,37 @@ Print Assumptions C11_encaps_mode.
 Theorem C11_hybrid_needs_hybrid : forall x s, x_hyb x = true -> opens x s = true -> s_hyb s = true.
 Proof. intros x s Hx Ho. unfold opens in Ho. rewrite Hx in Ho. apply andb_prop in Ho. destruct Ho as [_ Ho]. exact Ho. Qed.
 Print Assumptions C11_hybrid_needs_hybrid.
+
+(* ---- over all reachable states of the key-management state machine (KInv*.v, gathered in KeysTheorems.v) ---- *)
+Theorem C11_flavour_exact_reach :
+  forall s : state,
+       reach s ->
+       exists F : rightk -> bool,
+         (forall (r : rightk) (ch : list (bool * secret)) (fl : bool) (sk : secret),
+          In (r, ch) (m_secrets (st_msk s)) -> In (fl, sk) ch -> s_hyb sk = F r) /\
+         (forall (pk : mpk) (r : rightk) (sk : secret),
+          In pk (st_mpks s) -> In (r, sk) (p_keys pk) -> s_hyb sk = F r) /\
+         (forall (u : usk) (r : rightk) (ch : list secret) (sk : secret),
+          In u (st_usks s) -> In (r, ch) (u_chains u) -> In sk ch -> s_hyb sk = F r) /\
+         (forall (r : rightk) (h e : bool), In (r, (h, e)) (omega_map (m_st (st_msk s))) -> F r = h) /\
+         (forall (r : rightk) (h e : bool),
+          In (r, (h, e)) (omega_map (m_st (st_msk s))) ->
+          F r = true <->
+          (exists att : attribute, att_in (m_st (st_msk s)) att /\ In (a_id att) r /\ a_hyb att = true)).
+Proof. exact (@KeysTheorems.C11_flavour_exact). Qed.
+Print Assumptions C11_flavour_exact_reach.
+
+Theorem C11_update_front_hint_reach :
+  forall s : state,
+       reach s ->
+       snd (step fixed s OUpdate) = ObOk ->
+       let m' := st_msk (fst (step fixed s OUpdate)) in
+       forall (r : rightk) (h e : bool),
+       In (r, (h, e)) (omega_map (m_st (st_msk s))) ->
+       exists (fl : bool) (sk : secret) (older : list (bool * secret)),
+         rlookup r (m_secrets m') = Some ((fl, sk) :: older) /\
+         s_hyb sk = h /\ (forall (fl' : bool) (sk' : secret), In (fl', sk') older -> s_hyb sk' = h).
+Proof. exact (@KeysTheorems.C11_update_front_hint). Qed.
+Print Assumptions C11_update_front_hint_reach.
+
+
